@@ -35,6 +35,15 @@ def body(run):
         synth.write_tif(sfn, src, pair['geom'].src_transform, mask=pair['smask'])
         synth.write_tif(rfn, ref, pair['geom'].ref_transform, mask=pair['rmask'])
         sb = rng.sample(range(1, nb + 1), rng.randint(1, nb)) if rng.random() < 0.6 else list(range(1, nb + 1))
+        if k % 4 == 1:
+            # every source band, in an order that is not the file order (a rotation): the position of a matched band differs from its file index
+            nb = max(nb, 2)
+            src = np.repeat(pair['src'], nb, axis=0)
+            ref = np.stack([tex * np.float32(GAINS[b]) for b in range(nb)])
+            synth.write_tif(sfn, src, pair['geom'].src_transform, mask=pair['smask'])
+            synth.write_tif(rfn, ref, pair['geom'].ref_transform, mask=pair['rmask'])
+            rot = rng.randint(1, nb - 1)
+            sb = [(j + rot) % nb + 1 for j in range(nb)]
         rb = rng.sample(range(1, nb + 1), len(sb))
         model = ik.MODELS[k % 3]
         proc = rng.choice(['auto', 'auto', 'src'])
@@ -167,6 +176,12 @@ def body(run):
                     problems[f'R2 band {2 * n + i + 1} is missing values'] = dict(expected_pixels=n_expected, finite_pixels=n_present)
                 elif worst:
                     problems['R2 band differs from 1 - RSS / TSS of the stored gain and offset'] = worst
+        # the band that holds gain / offset of matched band i (identified by content above) must be band i + 1 / n + i + 1
+        for i in range(n):
+            for kk in range(2):
+                j = found[3 * i + kk] if 3 * i + kk < len(found) else 0
+                if j and j != kk * n + i + 1:
+                    problems[f"{'gain' if kk == 0 else 'offset'} of matched band {i + 1} (source band {sb[i]}, reference band {rb[i]})"] = dict(found_in_band=j, expected_band=kk * n + i + 1)
         if not acc:
             problems['rejected by validate_param_image / ParamStats'] = desc.get('validator_error')
         if problems:
